@@ -8,6 +8,7 @@ inductive Err where
   | KeyError | TypeError | ValueError | IndexError | AttributeError
   | ExpatError | FileNotFoundError | ZeroDivisionError | RecursionError
   | QhullError | UnicodeDecodeError | OutOfFuel
+  | RuntimeError | OSError | LookupError | StopIteration
   deriving DecidableEq, Repr, Inhabited
 
 def Err.name : Err → String
@@ -17,6 +18,8 @@ def Err.name : Err → String
   | .ZeroDivisionError => "ZeroDivisionError" | .RecursionError => "RecursionError"
   | .QhullError => "QhullError" | .UnicodeDecodeError => "UnicodeDecodeError"
   | .OutOfFuel => "OutOfFuel"
+  | .RuntimeError => "RuntimeError" | .OSError => "OSError" | .LookupError => "LookupError"
+  | .StopIteration => "StopIteration"
 
 abbrev Res (α : Type) := Except Err α
 
